@@ -139,7 +139,7 @@ def _strip_stamp(contents, op):
     if op["op"] == "insert" and op["p"].get("t") is None:
         return contents[:-1] + [("stamped",) + tuple(contents[-1][1:])] if contents else contents
     if op["op"] == "insert_multiple":
-        n = len(op["ps"])
+        n = len(op["ps"]) if op.get("bad_at") is None else min(op["bad_at"], len(op["ps"]))  # a failing batch stores a prefix
         out = list(contents)
         for i, spec in enumerate(op["ps"]):
             j = len(out) - n + i
